@@ -203,7 +203,7 @@ Lemma model_extend_nvl s l al rho :
   wf s -> lin_ok s l -> model s al rho ->
   exists rho', model (fst (new_var_lin s l)) al rho' /\ forall v, (v < nvars s)%nat -> rho' v = rho v.
 Proof.
-  intros W [LS [LC LV]] M. unfold new_var_lin. destruct (find_expr (exprs s) l) as [x |] eqn:E; simpl.
+  intros W [LS LV] M. unfold new_var_lin. destruct (find_expr (exprs s) l) as [x |] eqn:E; simpl.
   - exists rho. split; auto.
   - set (n := nvars s). exists (fun v => if Nat.eqb v n then evalq rho l else rho v).
     assert (Same : forall v, (v < n)%nat -> (if Nat.eqb v n then evalq rho l else rho v) = rho v).
